@@ -623,7 +623,9 @@ def c09(res, rng, tier, replay=None):
     tails = ['<<*/*/%B>%B>*', '<<*/*/%B>>*', '<<*/%B>%B>*', '<<*/*/*/%B>:1,>*', '<*/%B>*', '<*/%B>', '<*/%B>**', '<**/%B>*', '<*/*/%B>*', '<</*%B>%B>', '**/<*%B>', '<*%B>/**', '/**', '**', '**/*', '**/{%s}', '**/<%s:1,2>', '/**/<%s:>', '{%s,**/%s}', '<*/>', '**/*/', '{a/**,%s/**}', '<%s/**:1,>',
              '**/%s/**', '{**/%s,b/**}', '<%s/:1,>**', '**/{%s,%s/**}', '{%s/**,**}',
              # a bounded branch at the front of the body of an unbounded repetition (repaired by 6c17bd8), and its unbounded relatives
-             '<{%s}/:1,>*', '<<%s:1>/:1,>*', '*<<?*:2>/*:1,>', '<{%s}/*:1,>', '<<?>/:1,>*', '<<%s>/>*', '<<?:1,3>/>*', '<{%s,*}/:1,>*', '<{*}/%B>*', '<{%s}/%B>*', '<<??>/>*', '<<?*>/>*', '<<?*?>/>*', '/**/<?/?:>', '<<?>/>', '<<*?>/%B>*', '<<{?,??}>/>*', '**/<?:2,>', '**/<?:1,>', '**/<?>', '**/<?%B>', '<<?:2,>/>*', '**/<?*:2,>', '**/<*:2,>']
+             '<{%s}/:1,>*', '<<%s:1>/:1,>*', '*<<?*:2>/*:1,>', '<{%s}/*:1,>', '<<?>/:1,>*', '<<%s>/>*', '<<?:1,3>/>*', '<{%s,*}/:1,>*', '<{*}/%B>*', '<{%s}/%B>*', '<<??>/>*', '<<?*>/>*', '<<?*?>/>*', '/**/<?/?:>', '<<?>/>', '<<*?>/%B>*', '<<{?,??}>/>*', '**/<?:2,>', '**/<?:1,>', '**/<?>', '**/<?%B>', '<<?:2,>/>*', '**/<?*:2,>', '**/<*:2,>',
+             # bodies whose depth term has gaps: an alternation of depths, a bounded variant range (repaired by 83c38c1), and their contiguous relatives
+             '<{*/*/,*/*/*/*/}%B>*', '<*/*/*/<*/:0,1>%B>*', '<{*/*/,*/*/*/}%B>*', '<*/*/<*/%B>%B>*', '<{*,*/*/}%B>', '<{*/,*/*/}%B>*', '<{*/*/,%s/**/}%B>*', '<*/<*/*/:0,1>%B>*', '<{*/,**/%s/}%B>*']
     while len(exprs) < n:
         t = rng.choice(tails)
         while '%B' in t:
